@@ -7,7 +7,7 @@
 From Coq Require Import NArith Bool List.
 Import ListNotations.
 From XetModel Require Import Base.Codec Gen.CrashFacts Model.Merkle Model.Shard Model.Crash Proofs.CrashProofs Proofs.CrashHistoryProofs.
-From XetModel Require Import Proofs.CodecProofs Proofs.ShardWholeProofs Proofs.ShardDedupWholeProofs Proofs.MergeProofs.
+From XetModel Require Import Proofs.CodecProofs Proofs.ShardWholeProofs Proofs.ShardDedupWholeProofs Proofs.MergeProofs Proofs.MergeAllProofs.
 Open Scope N_scope.
 
 (* after any prefix of the effects of a safe plan, every file under a final name is complete and consistent with its
@@ -88,8 +88,21 @@ Theorem C19_consolidating_two_shards_is_safe : forall (final : fname -> bool) f 
   SafePlan skey final (fun p c => p = shard_name c) shard_recs f (PWrite t (shard_name m) [m] :: map PUnlink [na; nb]).
 Proof. exact consolidate_pair_safe. Qed.
 
+
+(* ... and for a whole group of any size: the group's first shard and the shards merged into it are files of the directory, the
+   merged shard is written under the name of its content hash, then any of the group's names other than that name are unlinked *)
+Theorem C19_consolidating_a_group_is_safe : forall (final : fname -> bool) f t n0 acc (g : list (fname * sshard)) m dels,
+  ss_ok acc -> Forall (fun x => ss_ok (snd x)) g -> UnionsOk acc (map snd g) -> ss_ok (ss_unions acc (map snd g)) ->
+  merge_all (ss_bytes acc) (map (fun x => (fst x, ss_bytes (snd x))) g) = Some m ->
+  flookup f n0 = Some (ss_bytes acc) -> (forall n s, In (n, s) g -> flookup f n = Some (ss_bytes s)) ->
+  (forall d, In d dels -> (d = n0 \/ exists s, In (d, s) g) /\ d <> shard_name m /\ d <> t) ->
+  final t = false -> final (shard_name m) = true -> (forall c0, flookup f (shard_name m) = Some c0 -> c0 = m) ->
+  SafePlan skey final (fun p c => p = shard_name c) shard_recs f (PWrite t (shard_name m) [m] :: map PUnlink dels).
+Proof. exact consolidate_group_safe. Qed.
+
 Print Assumptions C19_crash_at_any_point.
 Print Assumptions C19_group_write_before_delete.
 Print Assumptions C19_consolidation_plan_structure.
 Print Assumptions C19_any_history_of_interrupted_operations.
 Print Assumptions C19_consolidating_two_shards_is_safe.
+Print Assumptions C19_consolidating_a_group_is_safe.
